@@ -206,6 +206,10 @@ HAND = [
     "Oc1ccccc1>>Oc1ccc2ccccc2c1",
     "Nc1ccccc1S>>c1nc2ccccc2s1.O",
     "NC(=O)c1ccccc1N>>O=c1[nH]cnc2ccccc12",
+    "Nc1ccccc1O>>c1nc2ccccc2o1.O.O",
+    "Nc1ccccc1S>>c1nc2ccccc2s1.O.O",
+    "Nc1ccc(C)cc1N>>Cc1ccc2[nH]cnc2c1.O.O",
+    "NC(=O)c1ccccc1N>>O=c1[nH]cnc2ccccc12.O.O",
     # isotope labels that are lost or moved
     "[2H]C([2H])([2H])C([2H])([2H])[2H]>>[2H]C([2H])=C([2H])[2H]",
     "[2H]C([2H])([2H])O[2H]>>[2H]C([2H])=O",
